@@ -72,8 +72,17 @@ def scenario(ck, trial, tier, reqs_assembly, reqs_node):
             old_time = MI.time
             MI.time = net.clock
             try:
-                sn = nodeharness.SingleNode(net, cs0, [m.block for m in main[1:]], npeers=2)
+                sn = nodeharness.SingleNode(net, cs0, [m.block for m in main[1:]], npeers=3)
                 sn.new_messages()
+                torn = set()
+                if trial % 2 == 1:
+                    # fault injection: the FIRST peer's connection is half torn down (socket no longer registered with
+                    # the selector); sending to it fails, which must not keep the found block from the other peers
+                    try:
+                        sn.lp().selector.unregister(sn.peers[0].sock.other)
+                        torn.add(0)
+                    except Exception:
+                        pass
                 wallet = Wallet({pk: sk.to_string() for pk, sk in keys.by_pk.items()}, list(keys.pks), {})
                 with contextlib.redirect_stdout(io.StringIO()):
                     mw = make_watcher(sn, wallet, net.clock)
@@ -99,14 +108,41 @@ def scenario(ck, trial, tier, reqs_assembly, reqs_node):
                     found = None
                     nonce = rng.getrandbits(20)
                     miner_pk = mw.public_key
+                    peer_block_round = (rnd % 2 == 1 and net.clock() >= head.view.time)
                     for attempt in range(20000):
                         if attempt % 25 == 24:
                             net.clock.t += 1            # time passes while nonces are tried
+                        if peer_block_round and attempt == 2:
+                            # between two work requests a peer's valid block, stamped up to 29 s ahead of the local clock,
+                            # becomes the head; every later candidate builds on it
+                            from skepticoin.networking import messages as M
+                            pts = max(head.view.time + 1, net.clock() + rng.choice([0, 10, 29]))
+                            pb = tg.extend(head, txs=[], fees=0, dt=pts - head.view.time)
+                            byid[pb.id] = pb
+                            sn.deliver(1, M.DataMessage(M.DATA_BLOCK, pb.block))
+                            if bytes(cm.coinstate.current_chain_hash) != pb.id:
+                                ck.disagree('a valid peer block was not adopted as head', {'trial': trial, 'round': rnd})
+                                return
+                            head = pb
+                            before = sn.observe()
+                            cs_before = cm.coinstate
+                            pool = list(cm.transaction_pool)
+                            sn.new_messages()
+                            ck.count('peer-block-adopted-between-work-requests')
                         sn.node.activate()
                         with contextlib.redirect_stdout(io.StringIO()):
                             mw.handle_request_scrypt_input_message(0, nonce)
                         typ, (summary, height) = mw.send_queues[0].items[-1]
                         txs = mw.mining_args[0][2]
+                        par = byid.get(bytes(summary.previous_block_hash))
+                        served = bytes(cm.coinstate.current_chain_hash)
+                        if par is None or par.id != served or not summary.timestamp > par.view.time:
+                            ck.violation('candidate-not-on-served-head' if (par is None or par.id != served) else 'timestamp-not-after-parent',
+                                         'a candidate handed to the workers has parent %s (served head %s) and timestamp %d; '
+                                         "the parent's timestamp is %s" % (bytes(summary.previous_block_hash).hex()[:12], served.hex()[:12],
+                                                                         summary.timestamp, par.view.time if par else '?'),
+                                         {'trial': trial, 'round': rnd, 'attempt': attempt, 'peer_block_between_requests': peer_block_round})
+                            return
                         sh = C.construct_summary_hash(summary, height)
                         # the candidate this nonce yields, assembled independently of the handler
                         ev = C.construct_pow_evidence_after_scrypt(sh, mw.coinstate, summary, height, txs)
@@ -181,7 +217,7 @@ def scenario(ck, trial, tier, reqs_assembly, reqs_node):
                         ck.violation('found-block-not-stored', 'the found block is not in the block store', rp)
                     for p in range(len(sn.peers)):
                         cnt = sum(1 for (k, i, irt) in msgs[p] if k == 'block' and i == bv.id)
-                        if sn.connected(p) and cnt != 1:
+                        if p not in torn and sn.connected(p) and cnt != 1:
                             ck.violation('found-block-broadcast-count', 'the found block was sent %d times to a peer' % cnt, rp)
                     # the miner's next candidate builds on the found block
                     newn = chaingen.Node(found, head, spec.apply_block(head.utxo, bv))
@@ -217,7 +253,7 @@ def scenario(ck, trial, tier, reqs_assembly, reqs_node):
 
 def run(tier, seed):
     ck = common.Check('C12', tier, seed)
-    ck.rule = ('real MinerWatcher handlers in-process on a real node (real store, two peers): per round a pool of 0-3 valid '
+    ck.rule = ('real MinerWatcher handlers in-process on a real node (real store, three peers, in every second scenario the first peer connection half torn down; in every second round a valid block from a peer stamped up to 29 s ahead of the clock is adopted between two work requests; every candidate handed out is checked for parent = served head and timestamp later than the parent): per round a pool of 0-3 valid '
                'transactions with fees 0 / 1 / 1000 / a third, clock 500 s before .. 4000 s after the head timestamp, nonces '
                'tried until the id is below target (sha256 stand-in for scrypt), chains with retarget period 3-50 and '
                'competing equal-height tips; the found block is validated by the node itself and by the independent rules, '
